@@ -203,31 +203,66 @@ Record bad_it := mk_bad_it {
   bi_rev : bool;
   bi_cur : list entry }.
 
-Definition bad_home (rv : bool) (start : key) (end' : option key) : key :=
-  if rv then match end' with Some e => e | None => [] end else start.
+(** [end != nil && bytes.Equal(key, end)] *)
+Definition at_end (end' : option key) (k : key) : bool :=
+  match end' with Some e => beqb k e | None => false end.
 
-(** Iterator(): reverse ? it.Seek(end) : it.Seek(start) *)
+(** Rewind(): forward Iterator.Seek(start); reverse Iterator.Seek(end) (an
+    empty/nil end rewinds the library iterator) and, end being exclusive, one
+    library Next when that lands on the entry stored under end itself. *)
+Definition skip_end (end' : option key) (c : list entry) : list entry :=
+  match c with
+  | x :: tl => if at_end end' (fst x) then tl else c
+  | [] => c
+  end.
+
+Definition bad_rewind_rev (all : list entry) (end' : option key) : list entry :=
+  skip_end end' (b_seek true all (match end' with Some e => e | None => [] end)).
+
+Definition bad_rewind_cur (rv : bool) (all : list entry) (start : key) (end' : option key) : list entry :=
+  if rv then bad_rewind_rev all end' else b_seek false all start.
+
+(** Seek(key): the target is clamped into [start, end) first.
+    reverse: key >= end (end != nil) => Rewind(); an empty key (nothing is
+    <= it, but the library would rewind) => library Seek("\x00") and one
+    library Next when that is valid; forward: key < start => start. *)
+Definition bad_seek_rev (all : list entry) (end' : option key) (k : key) : list entry :=
+  if match end' with Some e => bleb e k | None => false end
+  then bad_rewind_rev all end'
+  else match k with
+       | [] => tl (b_seek true all [0%N])
+       | _ => b_seek true all k
+       end.
+
+Definition bad_seek_fwd (all : list entry) (start : key) (k : key) : list entry :=
+  b_seek false all (if bltb k start then start else k).
+
+Definition bad_seek_cur (rv : bool) (all : list entry) (start : key) (end' : option key)
+    (k : key) : list entry :=
+  if rv then bad_seek_rev all end' k else bad_seek_fwd all start k.
+
+(** Iterator(): builds the wrapper and calls its Rewind() *)
 Definition bad_open (m : store) (start : key) (end_ : option key) (rv : bool) : bad_it :=
   let e := resolve_end start end_ in
   let all := if rv then rev m else m in
-  mk_bad_it all start e rv (b_seek rv all (bad_home rv start e)).
+  mk_bad_it all start e rv (bad_rewind_cur rv all start e).
 
 Definition bad_set_cur (it : bad_it) (c : list entry) : bad_it :=
   mk_bad_it (bi_all it) (bi_start it) (bi_end it) (bi_rev it) c.
 
+(** Valid(): Iterator.Valid(), not on the (exclusive) end bound, checkKey(Key()) *)
 Definition bad_valid (it : bad_it) : bool :=
   match bi_cur it with
-  | e :: _ => check_key (bi_start it) (bi_end it) (fst e)
+  | e :: _ => negb (at_end (bi_end it) (fst e)) && check_key (bi_start it) (bi_end it) (fst e)
   | [] => false
   end.
 
 Definition bad_rewind (it : bad_it) : bad_it * bool :=
-  let it' := bad_set_cur it (b_seek (bi_rev it) (bi_all it)
-                               (bad_home (bi_rev it) (bi_start it) (bi_end it))) in
+  let it' := bad_set_cur it (bad_rewind_cur (bi_rev it) (bi_all it) (bi_start it) (bi_end it)) in
   (it', bad_valid it').
 
 Definition bad_seek (it : bad_it) (k : key) : bad_it * bool :=
-  let it' := bad_set_cur it (b_seek (bi_rev it) (bi_all it) k) in
+  let it' := bad_set_cur it (bad_seek_cur (bi_rev it) (bi_all it) (bi_start it) (bi_end it) k) in
   (it', bad_valid it').
 
 Definition bad_next (it : bad_it) : bad_it * bool :=
